@@ -309,6 +309,48 @@ def _desugar_try_for_each(cx, bb):
     return _next_loop(cx, bb, it, ity, callee["locals"][2]["ty"], body, ok_unit, "try_for_each")
 
 
+def _desugar_find_map(cx, bb):
+    """it.find_map(|x| body) with a closure literal:
+         loop { match it.next() { None => break None, Some(x) => if let Some(y) = body(x) { break Some(y) } } }"""
+    t = cx.blocks[bb]["term"]
+    args = t["args"]
+    if len(args) != 2 or t["dest"]["p"]:
+        return False
+    ipl = args[0].get("m")
+    if ipl is None or ipl["p"]:
+        return False
+    closure = _closure_def(cx.body, args[1])
+    if closure is None:
+        return False
+    callee = cx.by_key.get(closure[0])
+    if callee is None or callee.get("arg_count") != 2:
+        return False
+    rty = callee["locals"][0]["ty"]
+    if cx.types[rty].get("path") != OPT:
+        return False
+    it, ity = ipl["l"], ipl["t"]
+    if cx.types[ity].get("k") == "ref":
+        rdefs = [st for b_ in cx.blocks for st in b_["st"] if st["s"] == "assign" and st["pl"]["l"] == it and not st["pl"]["p"]]
+        if len(rdefs) != 1 or rdefs[0]["rv"]["r"] != "ref" or rdefs[0]["rv"]["pl"]["p"]:
+            return False
+        it, ity = rdefs[0]["rv"]["pl"]["l"], rdefs[0]["rv"]["pl"].get("t") or cx.body["locals"][rdefs[0]["rv"]["pl"]["l"]]["ty"]
+    sp, D, cont = t["sp"], t["dest"], t["to"]
+
+    def body(x, back):
+        chk = cx.new_block([], {"t": "goto", "to": back, "sp": sp})
+        res = _inline_closure(cx, closure[0], closure[1], [_use(x)], chk, sp)
+        if res is None:
+            return None
+        entry, lo, _rty = res
+        d = cx.new_local(cx.isize)
+        leave = cx.new_block([_assign(copy.deepcopy(D), _use({"m": _pl(lo, rty)}), sp)], {"t": "goto", "to": cont, "sp": sp})
+        cx.blocks[chk]["st"].append(_assign(_pl(d, cx.isize), {"r": "discr", "pl": _pl(lo, rty)}, sp))
+        cx.blocks[chk]["term"] = {"t": "switch", "on": {"m": _pl(d, cx.isize)}, "targets": [[0, back]], "otherwise": leave, "sp": sp, "desugared": "find_map", "desugared_adt": OPT, "desugared_dest": _pl(lo, rty)}
+        return entry
+
+    return _next_loop(cx, bb, it, ity, callee["locals"][2]["ty"], body, _agg(OPT, "None", 0, []), "find_map")
+
+
 def _desugar_extend(cx, bb):
     """v.extend(it)  ==  for x in it { v.push(x) }   for a Vec and an iterator adaptor of std::iter (the documented
     meaning of `Extend for Vec`; the reservation hint is not modelled)"""
@@ -376,6 +418,12 @@ def _unique_def_call(body, l):
         if len(ads) == 1 and not cds and ads[0]["rv"]["r"] == "use" and (ads[0]["rv"]["o"].get("m") or {}).get("p") == []:
             l = ads[0]["rv"]["o"]["m"]["l"]
             continue
+        # `IntoIterator::into_iter(it)` of something that already is an iterator is the identity (the `for` desugaring)
+        if not ads and len(cds) == 1 and (cds[0].get("f") or {}).get("path") == "std::iter::IntoIterator::into_iter" and len(cds[0]["args"]) == 1:
+            a = cds[0]["args"][0].get("m")
+            if a is not None and not a["p"] and a.get("t") == cds[0]["dest"].get("t"):
+                l = a["l"]
+                continue
         break
     for blk in body["blocks"]:
         for st in blk["st"]:
@@ -403,7 +451,16 @@ def _desugar_adaptor_next(cx, bb):
     if rpl is None or rpl["p"]:
         return False
     # the receiver is `&mut it`
-    rdefs = [st for b_ in cx.blocks for st in b_["st"] if st["s"] == "assign" and st["pl"]["l"] == rpl["l"] and not st["pl"]["p"]]
+    def ref_defs(l_):
+        return [st for b_ in cx.blocks for st in b_["st"] if st["s"] == "assign" and st["pl"]["l"] == l_ and not st["pl"]["p"]]
+
+    rdefs = ref_defs(rpl["l"])
+    # the `for` desugaring reborrows: `r0 = &mut iter; r = &mut *r0; next(r)`
+    for _ in range(3):
+        if rdefs and all(st["rv"]["r"] == "ref" and st["rv"]["pl"]["p"] == ["*"] for st in rdefs) and len({st["rv"]["pl"]["l"] for st in rdefs}) == 1:
+            rdefs = ref_defs(rdefs[0]["rv"]["pl"]["l"])
+        else:
+            break
     if not rdefs or any(st["rv"]["r"] != "ref" or st["rv"]["pl"]["p"] for st in rdefs) or len({st["rv"]["pl"]["l"] for st in rdefs}) != 1:
         return False
     it = rdefs[0]["rv"]["pl"]["l"]
@@ -423,6 +480,49 @@ def _desugar_adaptor_next(cx, bb):
         entry, lo, rty = r
         cx.blocks[join]["st"].append(_assign(copy.deepcopy(D), _use({"m": _pl(lo, rty)}), sp))
         blk["term"] = {"t": "goto", "to": entry, "sp": sp, "desugared": "from_fn.next"}
+        return True
+    if path in ("std::iter::Iterator::filter_map", "std::iter::Iterator::map_while") and mk["f"].get("trait") == "std::iter::Iterator" and len(mk["args"]) == 2:
+        # inner.filter_map(g).next() == loop { match inner.next() { None => break None, Some(x) => if let Some(y) = g(x) { break Some(y) } } }
+        # inner.map_while(g).next()  == match inner.next() { None => None, Some(x) => g(x) }
+        ipl = mk["args"][0].get("m")
+        closure = _closure_def(cx.body, mk["args"][1])
+        if ipl is None or ipl["p"] or closure is None:
+            return False
+        callee = cx.by_key.get(closure[0])
+        if callee is None or callee.get("arg_count") != 2:
+            return False
+        inner_item = callee["locals"][2]["ty"]
+        rty_ = callee["locals"][0]["ty"]
+        if cx.types[rty_].get("path") != OPT:
+            return False
+        items, its = cx.types[inner_item], cx.types[ipl["t"]]
+        oty = _type_id(cx, OPT + "<" + items["s"] + ">", lambda: dict({k: items.get(k) for k in ("has_param", "has_dyn", "has_closure", "params")}, **{"s": OPT + "<" + items["s"] + ">", "adts": [OPT] + [a for a in items.get("adts", []) if a != OPT], "k": "adt", "path": OPT, "key": "core::option::Option", "local": False, "args": [inner_item], "synthetic": True}))
+        rty = _type_id(cx, "&mut " + its["s"], lambda: dict({k: its.get(k) for k in ("has_param", "has_dyn", "has_closure", "params", "adts")}, **{"s": "&mut " + its["s"], "k": "ref", "mut": True, "t": ipl["t"], "synthetic": True}))
+        o2 = cx.new_local(oty)
+        r2 = cx.new_local(rty)
+        d1 = cx.new_local(cx.isize)
+        none_blk = cx.new_block([_assign(copy.deepcopy(D), _agg(OPT, "None", 0, []), sp)], {"t": "goto", "to": cont, "sp": sp})
+        head = bb  # the block of the original `next` call becomes the head (it stays the header of an enclosing `for` loop)
+        after = cx.new_block([], {"t": "goto", "to": cont, "sp": sp})  # filled below
+        res = _inline_closure(cx, closure[0], closure[1], [_use({"m": _pl(o2, inner_item, [{"d": 1, "n": "Some"}, {"f": 0, "n": "0", "t": inner_item}])})], after, sp)
+        if res is None:
+            return False
+        entry, lo, _ = res
+        if path.endswith("map_while"):
+            cx.blocks[after]["st"].append(_assign(copy.deepcopy(D), _use({"m": _pl(lo, rty_)}), sp))
+        else:
+            d2 = cx.new_local(cx.isize)
+            yes = cx.new_block([_assign(copy.deepcopy(D), _use({"m": _pl(lo, rty_)}), sp)], {"t": "goto", "to": cont, "sp": sp})
+            cx.blocks[after]["st"].append(_assign(_pl(d2, cx.isize), {"r": "discr", "pl": _pl(lo, rty_)}, sp))
+            cx.blocks[after]["term"] = {"t": "switch", "on": {"m": _pl(d2, cx.isize)}, "targets": [[0, head]], "otherwise": yes, "sp": sp, "desugared": "filter_map.next", "desugared_adt": OPT, "desugared_dest": _pl(lo, rty_)}
+        unreachable = cx.new_block([], {"t": "unreachable", "sp": sp})
+        test = cx.new_block([_assign(_pl(d1, cx.isize), {"r": "discr", "pl": _pl(o2, oty)}, sp)], {"t": "switch", "on": {"m": _pl(d1, cx.isize)}, "targets": [[0, none_blk], [1, entry]], "otherwise": unreachable, "sp": sp, "desugared": "adaptor.next", "desugared_adt": OPT, "desugared_dest": _pl(o2, oty)})
+        nxt = {"t": "call", "f": _next_fn(cx, ipl["t"]), "args": [{"m": _pl(r2, rty)}], "dest": _pl(o2, oty), "to": test, "sp": sp, "adaptor_tried": False}
+        if t.get("unwind") is not None:
+            nxt["unwind"] = t["unwind"]
+        blk["st"].append(_assign(_pl(r2, rty), {"r": "ref", "mut": True, "pl": _pl(ipl["l"], ipl["t"])}, sp))
+        nxt["desugared_from"] = path.rsplit("::", 1)[1] + ".next"
+        blk["term"] = nxt
         return True
     if path == "std::iter::Iterator::map" and mk["f"].get("trait") == "std::iter::Iterator" and len(mk["args"]) == 2:
         ipl = mk["args"][0].get("m")
@@ -469,6 +569,8 @@ def desugar_call(cx, bb):
         return _desugar_extend(cx, bb)
     if path == "std::iter::Iterator::try_for_each" and f.get("trait") == "std::iter::Iterator":
         return _desugar_try_for_each(cx, bb)
+    if path == "std::iter::Iterator::find_map" and f.get("trait") == "std::iter::Iterator":
+        return _desugar_find_map(cx, bb)
     if path == "std::iter::Iterator::next" and f.get("trait") == "std::iter::Iterator" and not t.get("adaptor_tried"):
         t["adaptor_tried"] = True
         return _desugar_adaptor_next(cx, bb)
